@@ -17,7 +17,7 @@ CHECKS="${*:-$PID}"
 for c in $CHECKS; do
   RP=$(mktemp -d /tmp/mv/rp.XXXX)
   S=$(date +%s)
-  VERIF_REPO="$WT" /verif/check "$c" --tier quick --no-evidence --no-determinism --replay-dir "$RP" > "/tmp/mv/$NAME.$c.log" 2>&1; E=$?
+  VERIF_REPO="$WT" "${VERIF_DIR:-/verif}/check" "$c" --tier quick --no-evidence --no-determinism --replay-dir "$RP" > "/tmp/mv/$NAME.$c.log" 2>&1; E=$?
   echo "check $c: exit=$E violations=$(grep -c '^VIOLATION' /tmp/mv/$NAME.$c.log) wall=$(( $(date +%s) - S ))s :: $(grep -m1 'class=' /tmp/mv/$NAME.$c.log | cut -c1-260)"
   rm -rf "$RP"
 done
